@@ -99,6 +99,7 @@ const (
 	OFToUBV    // fp.to_ubv RTZ
 	OFFromBits // to_fp from ieee bit pattern
 	OFConv     // fp -> fp of other width
+	OFRound32  // float64 -> float32 -> float64 (RNE): the float64 value of float32(x)
 )
 
 var opNames = map[Op]string{
@@ -522,6 +523,17 @@ func (c *Ctx) FPFromUBV(a *Term) *Term {
 		return c.FPConst(float64(a.Val))
 	}
 	return c.mk(&Term{Op: OFFromUBV, Sort: FP64, Args: []*Term{a}})
+}
+
+// FPRound32 is float64(float32(a)).
+func (c *Ctx) FPRound32(a *Term) *Term {
+	if a.IsConst() {
+		return c.FPConst(float64(float32(math.Float64frombits(a.Val))))
+	}
+	if a.Op == OFRound32 {
+		return a
+	}
+	return c.mk(&Term{Op: OFRound32, Sort: FP64, Args: []*Term{a}})
 }
 
 // FPToSBV is the raw SMT conversion (RTZ); unspecified out of range.
